@@ -115,7 +115,8 @@ impl Report {
         let mut unknown: Vec<&Violation> = Vec::new();
         for v in &self.violations {
             let hit = known.iter().find(|k| {
-                k.property == self.property
+                (k.property == self.property
+                    || k.also.iter().any(|p| p == self.property))
                     && k.status == "known"
                     && v.tags.iter().any(|t| t == &k.trigger)
             });
@@ -256,6 +257,8 @@ impl Report {
 #[derive(Debug, Clone)]
 pub struct Known {
     pub property: String,
+    /// further properties whose checks can run into the same defect
+    pub also: Vec<String>,
     pub id: String,
     pub status: String,
     pub trigger: String,
@@ -277,6 +280,14 @@ pub fn load_known(dir: &std::path::Path) -> Vec<Known> {
             a.iter()
                 .map(|e| Known {
                     property: e["property"].as_str().unwrap_or("").to_string(),
+                    also: e["also"]
+                        .as_array()
+                        .map(|a| {
+                            a.iter()
+                                .filter_map(|x| x.as_str().map(str::to_string))
+                                .collect()
+                        })
+                        .unwrap_or_default(),
                     id: e["id"].as_str().unwrap_or("").to_string(),
                     status: e["status"].as_str().unwrap_or("").to_string(),
                     trigger: e["trigger"].as_str().unwrap_or("").to_string(),
